@@ -363,6 +363,14 @@ class Interp:
             s.decisions.append(d); s.dpos += 1
         s.assume(cond if d else z3.Not(cond))
         return d
+    def concretize(s, e, limit=None):
+        """case-split a symbolic integer (an allocation size, typically) over 0..limit; deterministic, so that decision
+        prefixes replay.  Values above the limit end the path as outside the stated bound."""
+        limit = limit if limit is not None else getattr(s, 'alloc_limit', 256)
+        for v in range(0, limit + 1):
+            if s.branch(s.I(e) == v): return v
+        s.bound_cut = getattr(s, 'bound_cut', 0) + 1
+        raise PathEnd()
     def newsym(s, prefix, sort='real'):
         # globally unique across interpreter instances: obligations routinely combine the path conditions of several runs
         s.fresh = next(_FRESH)
@@ -718,6 +726,10 @@ class Interp:
                 k = s.newsym('trunc', 'int'); kr = z3.ToReal(k)
                 s.assume(z3.If(a >= 0, z3.And(kr <= a, a < kr + 1), z3.And(kr - 1 < a, a <= kr)))
                 s.fptosi_log.append((k, dty.bits))
+                lim = getattr(s, 'concretize_fptosi', None)
+                if lim is not None:
+                    # stated bound: the truncated value is case-split over 0..lim (one path per value); larger or negative values end the path
+                    return s.concretize(k, lim)
                 return k
             if isinstance(a, float) and (math.isnan(a) or math.isinf(a) or abs(a) >= 2.0 ** (dty.bits - 1)): return 1 << (dty.bits - 1)
             v = int(a) if a >= 0 else -int(-a)
